@@ -51,6 +51,7 @@ type Unit struct {
 	poolHit    *Term
 	defs       []*Term
 	hintsUsed  map[string]bool
+	headCounter map[int]int
 }
 
 type Exit struct {
